@@ -98,8 +98,8 @@ BUILT = {
  "C16": dict(
    technique="exhaustive enumeration of worker counts + proptest large n, validity predicate and end-to-end differential against the unscoped run",
    category="exploration",
-   text="calculate_scopes is compiled from the example's own file; every n in 1..=32,768 (thorough 262,144) plus sampled n up to 2^22 must give n contiguous, non-decreasing scopes from (0,1) to (48,49) over valid positions; for every n <= 1,024 (thorough 4,096) and sampled larger n the scopes are fed to real evaluators as the example does and the concatenated showdowns must equal the single-threaded run.",
-   note="End-to-end uses two fixed cheap configurations. n beyond 2^22 (f32 integer precision) is not generated.",
+   text="calculate_scopes is compiled from the example's own file; every n in 1..=32,768 (thorough 262,144) plus sampled n up to 2^27 (incl. the neighbourhood of 2^24) must give n contiguous, non-decreasing scopes from (0,1) to (48,49) over valid positions; for every n <= 1,024 (thorough 4,096) and sampled larger n the scopes are fed to real evaluators as the example does and the concatenated showdowns must equal the single-threaded run.",
+   note="End-to-end uses two fixed cheap configurations. n beyond 2^27 is not generated (a scope list of that length no longer fits comfortably in memory).",
    ref="DESIGN.md section 4 (C16)", engine="c16_scopes"),
  "C17": dict(
    technique="proptest model-based construction histories + exhaustive row sweeps, canonical-form oracle (history independence + maximal-run structure via an independent tokenizer)",
